@@ -7,7 +7,7 @@
    [flds], [mths], [prms] are the children of an optional parent; [union eqb ka kb] = ka followed
    by the keys of kb that are not in ka; [row3 a b] = [shared first name; A's name; B's name];
    [first_some a b] = a's comment if it has one, else b's. *)
-From FB Require Import C09.Model C09.Theory C09.Theory2 C09.Theory3 C09.Theory4 C09.Theory5 C09.Theory6 C09.Theory7 C09.Theory8 C09.Theory9 C09.Theory10 C09.Theory11 C09.Theory12.
+From FB Require Import C09.Model C09.Theory C09.Theory2 C09.Theory3 C09.Theory4 C09.Theory5 C09.Theory6 C09.Theory7 C09.Theory8 C09.Theory9 C09.Theory10 C09.Theory11 C09.Theory12 C09.Theory13.
 From FB Require C08.Model.
 From FB Require C03.Theory6.
 
@@ -39,6 +39,25 @@ Theorem C09_union_is_union : forall (K : Type) (eqb : K -> K -> bool) (ka kb : l
   NoDup (union eqb ka kb) /\ forall k, In k (union eqb ka kb) <-> In k ka \/ In k kb.
 Proof. exact (fun K eqb ka kb H => union_spec eqb H ka kb). Qed.
 Print Assumptions C09_union_is_union.
+
+(* 1'. ORDERED key lists (round 5).  When the insertion-ordered key list of one side is a prefix of the
+       other's - two files listing the same entries in the same order, one of them with a tail - the union
+       is the longer list: the tail is neither lost nor duplicated, whichever side is the shorter one.  By
+       C09_merge_keys this holds at every level (the theorem is about [union], which every level uses); the
+       class level is spelled out.  A positional pairing of the two maps would lose exactly the tail. *)
+Theorem C09_union_prefix : forall (K : Type) (eqb : K -> K -> bool) (ka ex : list K),
+  eqb_ok eqb -> NoDup (ka ++ ex) ->
+  union eqb ka (ka ++ ex) = ka ++ ex /\ union eqb (ka ++ ex) ka = ka ++ ex.
+Proof. exact (fun K eqb ka ex H => union_prefix eqb H ka ex). Qed.
+Print Assumptions C09_union_prefix.
+
+Theorem C09_merge_class_keys_prefix : forall A B M ex, wf2 A = true -> wf2 B = true -> merge A B = Ok M ->
+  (map class_key (ms_classes B) = map class_key (ms_classes A) ++ ex ->
+   map class_key (ms_classes M) = map class_key (ms_classes B))
+  /\ (map class_key (ms_classes A) = map class_key (ms_classes B) ++ ex ->
+      map class_key (ms_classes M) = map class_key (ms_classes A)).
+Proof. exact merge_class_keys_prefix. Qed.
+Print Assumptions C09_merge_class_keys_prefix.
 
 (* the result is a well-formed set over three namespaces (unique keys at every level, every row
    has three cells, first names present) *)
